@@ -36,6 +36,17 @@ PINS = [
     ("androguard/decompiler/writer.py", "Writer.visit_long_compare"),
     ("androguard/decompiler/writer.py", "Writer.visit_variable"),
     ("androguard/decompiler/writer.py", "Writer.visit_param"),
+    ("androguard/decompiler/writer.py", "Writer.visit_this"),
+    ("androguard/decompiler/writer.py", "Writer.visit_base_class"),
+    ("androguard/decompiler/writer.py", "Writer.visit_check_cast"),
+    ("androguard/decompiler/writer.py", "Writer.visit_get_instance"),
+    ("androguard/decompiler/writer.py", "Writer.visit_get_static"),
+    ("androguard/decompiler/writer.py", "Writer.visit_aload"),
+    ("androguard/decompiler/writer.py", "Writer.visit_alength"),
+    ("androguard/decompiler/writer.py", "Writer.visit_new_array"),
+    ("androguard/decompiler/writer.py", "Writer.visit_new"),
+    ("androguard/decompiler/writer.py", "Writer.visit_invoke"),
+    ("androguard/decompiler/util.py", "get_type"),
     ("androguard/decompiler/writer.py", "Writer.write_inplace_if_possible"),
     ("androguard/decompiler/writer.py", "Writer.visit_assign"),
     ("androguard/decompiler/instruction.py", "Constant.visit"),
@@ -767,7 +778,16 @@ def run(ck: Check):
         "the declared type of a Java variable standing for a register is the type with which the instruction reads it (int/long)",
         "java.lang.Long.compare returns exactly -1/0/1 (OpenJDK); checked against the installed JVM by the correspondence",
         "javac/java 17 as installed are the Java compiler and JVM of the property",
-        "the instruction's literal is the value the decoder delivers (C01)"]
+        "the instruction's literal is the value the decoder delivers (C01)",
+        "print_parse: the lexer (text -> Java lexemes, JLS 3) is harness/c21_jexpr.py:lex, not part of the Lean model; the theorem is "
+        "about the lexeme list. Model/JExpr.lean's parser is a hand transcription of the JLS 15 expression grammar for the lexemes "
+        "the Writer emits (no ternary, assignment, instanceof, lambda, generics, multi-dimensional array creation); toJava (what Java "
+        "tree an IR node stands for) is part of the specification"]
+    ck.notes.append("print_parse is proved for every well-formed IR expression tree (JExpr.WF: each operand printed at least as tightly "
+                    "as its position needs); trees outside WF (a bare comparison as an operand, `a cmp b` of float compares) are "
+                    "printed by the Writer as text that means something else or is not Java - DAD's own pipeline only builds "
+                    "comparisons at the top of a condition. Statement-level text (assignments, declarations, conditions joined by "
+                    "&& / ||, control structure) is not covered by print_parse")
     workdir = tempfile.mkdtemp(prefix="c21-")
     try:
         drv = Driver("drv_C21")
